@@ -517,6 +517,42 @@ func ChanNative(vals []int, buffered bool) string {
 	return strings.Join(b, " ")
 }
 
+// ChanLazyCases: how many values are still queued after k iterations - a range over a channel receives one
+// value per iteration, never ahead
+func ChanLazyCases() [][3]string {
+	var out [][3]string
+	for _, n := range []int{1, 3, 5} {
+		for k := 1; k <= n; k++ {
+			mk := func() chan int {
+				ch := make(chan int, n)
+				for i := 0; i < n; i++ {
+					ch <- i
+				}
+				close(ch)
+				return ch
+			}
+			ch1 := mk()
+			it := seq.NewChanIter[int](ch1)
+			impl := safe(func() string {
+				for i := 0; i < k; i++ {
+					it.MoveNext()
+				}
+				return fmt.Sprint(len(ch1))
+			})
+			ch2 := mk()
+			i := 0
+			for range ch2 {
+				i++
+				if i == k {
+					break
+				}
+			}
+			out = append(out, [3]string{fmt.Sprintf("queued after %d of %d", k, n), impl, fmt.Sprint(len(ch2))})
+		}
+	}
+	return out
+}
+
 func mkChan(vals []int, buffered bool) <-chan int {
 	n := 0
 	if buffered {
